@@ -10,13 +10,16 @@ def ver (f : Fields) : IpVersion := if f.ip.v6 then .v6 else .v4
 def codeHdr (f : Fields) : Nat := if f.ip.v6 then TcpConst.ipv6HdrLen else f.ip.ihl
 def walked (f : Fields) : WalkSt := walk (tcpType f.tcp.flags) f.tcp.opts { quirks := hdrQuirks f }
 
+/-- what `visit_tcp` pushes after the option loop: `bad` when `options_malformed` says so -/
+def badQ (f : Fields) : List Quirk := if optionsMalformed f.tcp.opts then [.optBad] else []
+
 /-- the signature `visit_tcp` builds -/
 def modelSig (f : Fields) : TcpSig :=
   { version := ver f, ittl := calculateTtl f.ip.ttl,
     olen := if f.ip.v6 then ipv6OptLen else ipv4OptLen f.ip.ihl,
     mss := (walked f).mss,
     wsize := detectWin f.tcp.window ((walked f).mss.getD 0) 0 ((walked f).olayout.contains .ts) (ver f),
-    wscale := (walked f).wscale, olayout := (walked f).olayout, quirks := (walked f).quirks,
+    wscale := (walked f).wscale, olayout := (walked f).olayout, quirks := (walked f).quirks ++ badQ f,
     pclass := if f.tcp.payLen = 0 then .zero else .nonZero }
 
 def modelMtu (f : Fields) : Option Nat :=
@@ -37,11 +40,11 @@ theorem process_ok (f : Fields) (hp : f.ip.proto = 6)
   · rcases hfrag with h | ⟨h1, h2⟩
     · rw [h6] at h; cases h
     · unfold process visitTcp
-      simp only [h6, hp, PROTO_TCP, h1, h2, hv, modelSig, modelMtu, walked, hdrQuirks, ipQuirks, ver, codeHdr]
+      simp only [h6, hp, PROTO_TCP, h1, h2, hv, modelSig, modelMtu, walked, hdrQuirks, ipQuirks, ver, codeHdr, badQ]
       simp
       cases (walk (tcpType f.tcp.flags) f.tcp.opts { quirks := ipQuirksV4 f.ip ++ tcpQuirks (ipQuirksV4 f.ip) f.tcp }).mss <;> rfl
   · unfold process visitTcp
-    simp only [h6, hp, PROTO_TCP, hv, modelSig, modelMtu, walked, hdrQuirks, ipQuirks, ver, codeHdr]
+    simp only [h6, hp, PROTO_TCP, hv, modelSig, modelMtu, walked, hdrQuirks, ipQuirks, ver, codeHdr, badQ]
     simp
     cases (walk (tcpType f.tcp.flags) f.tcp.opts { quirks := ipQuirksV6 f.ip ++ tcpQuirks (ipQuirksV6 f.ip) f.tcp }).mss <;> rfl
 
@@ -76,6 +79,24 @@ theorem walked_eq (f : Fields) (a : Area) (hpa : parseArea f.tcp.opts = some a)
     intro o; cases o <;> rfl
   rcases hpad with h | h <;> rw [h] <;>
     simp [Area.layout, h, mssValues, wsValues, ok1, walk, walkAux, walkStep]
+
+/-- on an option area the grammar accepts nothing is pushed after the loop -/
+theorem badQ_parsed (f : Fields) (a : Area) (hpa : parseArea f.tcp.opts = some a) : badQ f = [] := by
+  unfold badQ
+  have : ¬ optionsMalformed f.tcp.opts = true := by rw [optionsMalformed_iff, hpa]; simp
+  simp [this]
+
+/-- on a malformed one, `bad` -/
+theorem badQ_malformed (f : Fields) (hpa : parseArea f.tcp.opts = none) : badQ f = [.optBad] := by
+  unfold badQ
+  simp [(optionsMalformed_iff f.tcp.opts).mpr hpa]
+
+/-- the quirk list of the signature: header quirks, what the walk appends, `bad` -/
+theorem modelSig_quirks (f : Fields) :
+    (modelSig f).quirks =
+      hdrQuirks f ++ (walk (tcpType f.tcp.flags) f.tcp.opts {}).quirks ++ badQ f := by
+  simp only [modelSig, walked]
+  rw [(walk_quirks _ _ _).1]
 
 end Huginn.Lemmas.TcpMain
 
